@@ -41,8 +41,24 @@ HAND = [
 ]
 
 
+def _pay(n):
+    return bytes((i * 7 + 3) & 0xff for i in range(n)).hex()
+
+
+# (schema, value of payload size n)
+LARGE = [
+    ('bytes', lambda n: {'B': _pay(n)}),
+    ('string', lambda n: {'s': 'a' * n}),
+    ({'type': 'record', 'name': 'LR', 'fields': [{'name': 'a', 'type': 'long'}, {'name': 'b', 'type': 'string'}]}, lambda n: {'r': [['a', {'l': 7}], ['b', {'s': 'x' * n}]]}),
+    ({'type': 'array', 'items': 'bytes'}, lambda n: {'a': [{'B': '00'}, {'B': _pay(n)}]}),
+    ({'type': 'map', 'values': 'long'}, lambda n: {'m': [['k' * n, {'l': 1}]]}),
+    (['null', 'bytes'], lambda n: {'u': [1, {'B': _pay(n)}]}),
+]
+LARGE_JSON = [json.dumps(j, sort_keys=True) for j, _ in LARGE]
+
+
 def schema_corpus(seed, n_generated):
-    out = list(HAND)
+    out = list(HAND) + [j for j, _ in LARGE if j not in HAND]
     for i in range(n_generated):
         rng = random.Random('%s/fz/%d' % (seed, i))
         out.append(gschema.SchemaGen(rng, gschema.Opts(max_depth=rng.choice([1, 2, 3]))).gen())
@@ -61,6 +77,11 @@ def decode_ops(seed, schemas, limit, heavy, exhaustive_len, n_random, deser=True
             if len(b) <= 4096:
                 valid.append(b.hex())
         sid = '%s%d' % (tag, i)
+        if json.dumps(j, sort_keys=True) in LARGE_JSON:
+            # data with long payloads (code that reads in chunks has its boundaries far from where small values reach)
+            for n in (1023, 4097, 16383, 16384, 16385, 32769, 65536, 70001):
+                if n * 2 <= limit:
+                    valid.append(avrobin.encode(node, env, LARGE[LARGE_JSON.index(json.dumps(j, sort_keys=True))][1](n)).hex())
         batches.append([{'id': '%s/p' % sid, 'op': 'parse_schema', 'sid': sid, 'text': json.dumps(j)},
                         {'id': '%s/f' % sid, 'op': 'fuzz_decode', 'sid': sid, 'valid': valid, 'limit': limit, 'heavy': heavy,
                          'exhaustive_len': exhaustive_len if i < len(HAND) else min(exhaustive_len, 3), 'random': n_random, 'seed': rng.getrandbits(48), 'deser': deser}])
